@@ -9,6 +9,7 @@ package c07
 
 import (
 	"fmt"
+	"github.com/dgraph-io/badger/v3"
 	"strings"
 	"testing"
 	"time"
@@ -57,9 +58,9 @@ type step struct {
 }
 
 type histOp struct {
-	client       int
-	call, ret    int64
-	steps        []step
+	client    int
+	call, ret int64
+	steps     []step
 }
 
 var lastHistory []histOp // handed to PostCheck (one run at a time per process)
@@ -68,18 +69,19 @@ var lastDesc string
 var lastIndexed []bool
 
 type sys struct {
-	w       *sim.World
-	nVars   int
-	indexed []bool
-	mgrs    []*resources.LocalSharedManager
+	w        *sim.World
+	nVars    int
+	indexed  []bool
+	mgrs     []*resources.LocalSharedManager
 	timeouts []time.Duration
-	progs   [][]section
-	hist    []histOp
-	done    int
-	lastEnd map[int]time.Duration // per context: when its latest attempt ended
+	db       *badger.DB // non-nil: every sharer's handle is wrapped in Persistent (in-memory badger)
+	progs    [][]section
+	hist     []histOp
+	done     int
+	lastEnd  map[int]time.Duration // per context: when its latest attempt ended
 	finished map[int]bool
-	desc    string
-	incs    []int // committed increments per variable (counter vars)
+	desc     string
+	incs     []int // committed increments per variable (counter vars)
 }
 
 func (s *sys) generate() {
@@ -335,6 +337,15 @@ func (s *sys) runCtx(c int) {
 func scenario(w *sim.World) {
 	s := &sys{w: w, lastEnd: map[int]time.Duration{}, finished: map[int]bool{}}
 	s.generate()
+	if w.Choose(sim.KCfg, 3) == 1 {
+		s.db = openDB(w)
+		if s.db == nil {
+			return
+		}
+		defer s.db.Close()
+		s.desc += " | every handle wrapped in Persistent"
+		w.Probe("persistent_wrapped")
+	}
 	w.Event("cfg %s", s.desc)
 	for c := range s.progs {
 		s.runCtx(c)
